@@ -653,15 +653,54 @@ def _uids(ctx: Ctx) -> None:
               mb.path, f.lineno)
     # and the token is what makes the directory name
     init = mj.func('Job.__init__')
-    dn = [st for st in _stmts(init) if isinstance(st, ast.Assign) and len(st.targets) == 1 and _is_attr(st.targets[0], 'self', '_dirname')]
-    ctx.need(len(dn) == 1, f'{FJ}::Job.__init__: `self._dirname` assignment not found')
-    v = dn[0].value
-    alts = [v.body, v.orelse] if isinstance(v, ast.IfExp) else [v]
+    # the directory name is fixed at construction: command text embeds it eagerly (Job._interpolate_command), the backend reads it lazily
+    # at submit time; both agree only if it cannot change in between
+    jobcls = mj.cls('Job')
+    props = [f for f in jobcls.body if isinstance(f, ast.FunctionDef) and f.name == '_dirname' and 'property' in pf.decorator_names(f)]
+    writes = []
+    for rel in (FJ, FB, FK):
+        mm = pf.load(rel)
+        for n in ast.walk(mm.tree):
+            if isinstance(n, ast.Attribute) and n.attr == '_dirname' and isinstance(n.ctx, (ast.Store, ast.Del)):
+                writes.append((rel, mm.enclosing_func(n), n))
+    fixed_cons = f'{FJ}::Job::_dirname fixed at construction'
+    if props:
+        ctx.need(len(props) == 1 and not writes, f'{FJ}::Job._dirname: property and assignments mixed (not analysed)')
+        reads = sorted({n.attr for n in ast.walk(props[0]) if isinstance(n, ast.Attribute) and isinstance(n.value, ast.Name) and n.value.id == 'self'})
+        unstable = []
+        for a in reads:
+            ws = [(rel, mm2.enclosing_func(n)) for rel in (FJ, FB, FK) for mm2 in [pf.load(rel)] for n in ast.walk(mm2.tree)
+                  if isinstance(n, ast.Attribute) and n.attr == a and isinstance(n.ctx, (ast.Store, ast.Del)) and _may_be_job(mm2, n)]
+            once = bool(ws) and all(rel == FJ and fn is init for rel, fn in ws)
+            if not (a.startswith('_') and once):
+                unstable.append(a)
+        ctx.check(not unstable, 'R4', fixed_cons, f'`_dirname` is a property computed from {["self." + a for a in unstable]}, which can change after construction (public attribute / written outside '
+                  '__init__): the path already substituted into the command text and the path the backend computes at submit time then differ, so the producer uploads from / the consumer '
+                  'downloads to a location the command does not use', mj.path, props[0].lineno)
+        alts = [r.value for r in pf.walk_shallow(props[0]) if isinstance(r, ast.Return) and r.value is not None]
+        ctx.need(bool(alts), f'{FJ}::Job._dirname: property returns nothing')
+        anchor_line = props[0].lineno
+        shown = f'property _dirname returning {[pf.nsrc(a) for a in alts]}'
+    else:
+        dn = [st for st in _stmts(init) if isinstance(st, ast.Assign) and len(st.targets) == 1 and _is_attr(st.targets[0], 'self', '_dirname')]
+        ctx.need(len(dn) == 1, f'{FJ}::Job.__init__: `self._dirname` assignment not found')
+        other = [(rel, fn.name if fn is not None else '<module>') for rel, fn, n in writes if not (rel == FJ and fn is init)]
+        ctx.check(not other, 'R4', fixed_cons, f'`_dirname` is re-assigned in {other}: the path already substituted into command text and the path computed at submit time differ',
+                  mj.path, dn[0].lineno)
+        v = dn[0].value
+        alts = [v.body, v.orelse] if isinstance(v, ast.IfExp) else [v]
+        anchor_line = dn[0].lineno
+        shown = pf.nsrc(dn[0])
     tail_ok = True
     for a in alts:
-        ps = _parts(a)
-        tail_ok = tail_ok and bool(ps) and ps[-1] == ('expr', 'self._token')
-    ctx.check(tail_ok, 'R4', f'{FJ}::Job.__init__::_dirname ends with the token', f'`{pf.nsrc(dn[0])}`: the job directory is not made unique by the per-batch token', mj.path, dn[0].lineno)
+        if isinstance(a, ast.IfExp):
+            sub = [a.body, a.orelse]
+        else:
+            sub = [a]
+        for a2 in sub:
+            ps = _parts(a2)
+            tail_ok = tail_ok and bool(ps) and ps[-1] == ('expr', 'self._token')
+    ctx.check(tail_ok, 'R4', f'{FJ}::Job.__init__::_dirname ends with the token', f'`{shown}`: the job directory is not made unique by the per-batch token', mj.path, anchor_line)
     for qual, cls in (('Batch.new_bash_job', 'BashJob'), ('Batch.new_python_job', 'PythonJob')):
         f2 = mb.func(qual)
         mk = [c for c in pf.calls_in(f2) if (pf.dotted(c.func) or '').endswith(cls)]
@@ -671,6 +710,19 @@ def _uids(ctx: Ctx) -> None:
         ctx.check(isinstance(t0, ast.Call) and pf.dotted(t0.func) == 'self._unique_job_token', 'R4', f'{FB}::{qual}::token from the allocator',
                   f'the job token is `{pf.nsrc(t0) if t0 is not None else None}`, not self._unique_job_token()', mb.path, mk[0].lineno)
     ctx.unit('functions', 16)
+
+
+def _may_be_job(mm: pf.Module, n: ast.Attribute) -> bool:
+    """Can the receiver of this attribute write be a Job?  `self.x` inside a class that is not Job / a subclass of Job cannot."""
+    if not (isinstance(n.value, ast.Name) and n.value.id == 'self'):
+        return True
+    par = mm.parents()
+    cur = par.get(n)
+    while cur is not None and not isinstance(cur, ast.ClassDef):
+        cur = par.get(cur)
+    if cur is None:
+        return True
+    return cur.name == 'Job' or any((pf.dotted(b) or '').split('.')[-1] in ('Job', 'BashJob', 'PythonJob') for b in cur.bases)
 
 
 def run(ctx: Ctx) -> None:
